@@ -370,6 +370,12 @@ func (c *TCPConn) Write(p []byte) (int, error) {
 
 func (c *TCPConn) Close() error {
 	Y("tcp.Close", "net:close")
+	return c.CloseNow()
+}
+
+// CloseNow is Close without a scheduling point: what the kernel does with the
+// sockets of a process that has exited.
+func (c *TCPConn) CloseNow() error {
 	n := c.net
 	n.mu.Lock()
 	defer n.mu.Unlock()
